@@ -26,7 +26,7 @@ def harness(v, prop, cases, parallel=12, timeout=90, interop=False):
         if o.get("note"):
             raise Internal("case %s: %s" % (c["id"], o["note"]))
         for vi in o.get("violations") or []:
-            if vi["prop"] == prop:
+            if prop in vi["prop"].split(","):
                 v.violation(vi["key"], vi["what"], c)
             elif interop and c["kind"].startswith("seg"):
                 # C08: "an independent implementation interoperates, the receiver gets exactly the bytes the sender wrote"
@@ -108,7 +108,8 @@ def run_c07(prop, tier, seed, replay=None):
                      "the segments of the cut plan (each Read ends at the next cut; everything buffered is delivered once the sender has flushed)",
                      "cut plans: all coalesced, byte at a time, every single cut at each field boundary -1/0/+1, seeded 2-3-cut combinations; pads 0,1,3 (quick) "
                      "+40,512 (thorough); IA none / handshake / handshake+2; early data 0,2,5 bytes; both roles, both handshake kinds",
-                     "options: DefaultOptions(prefer=true, force=false) on the side under test"]
+                     "segmentation cases: DefaultOptions(prefer=true, force=false) on the side under test; agreement of the two ends (outcome, cipher mode, "
+                     "info-hash, peer ids): all 2^6 x 2^6 option pairs x both handshake kinds, real client against real server over net.Pipe"]
     if replay:
         cases = [json.load(open(replay))["scenario"]]
     else:
@@ -116,6 +117,22 @@ def run_c07(prop, tier, seed, replay=None):
         require_ok(r, "Handshake model checking")
         v.add_tlc("Handshake_mc.cfg", r)
         cases = seg_cases(tier, rng)
+        # "client and server always agree on these values ... all option combinations that allow the handshake to succeed":
+        # every cell of the CryptoPolicy.tla table, real client against real server; only the agreement observables count here
+        r = run_tlc("MCCryptoPolicy", "CryptoPolicy_mc.cfg", workers=4, timeout=600)
+        require_ok(r, "CryptoPolicy_mc.cfg")
+        v.add_tlc("CryptoPolicy_mc.cfg", r)
+        pol = []
+        for p in sorted(set(r.lines("CASE"))):
+            c = json.loads(p)
+            c["kind"] = "policy"
+            pol.append(c)
+            # over a connection that buffers writes (a TCP socket) an end learns nothing from the fate of what it wrote
+            pol.append(dict(c, buffered=True))
+        os.unlink(r.outfile)
+        if len(pol) != 2 * 8192:
+            raise Internal("CryptoPolicy: %d cells" % len(pol))
+        cases += pol
         for i, c in enumerate(cases):
             c["id"] = i
     obs = harness(v, prop, cases)
@@ -147,8 +164,9 @@ def run_c08(prop, tier, seed, replay=None):
                     c = json.loads(p)
                     c["kind"] = "policy"
                     cases.append(c)
+                    cases.append(dict(c, buffered=True))
                 os.unlink(r.outfile)
-        if len(cases) != 8192:
+        if len(cases) != 2 * 8192:
             raise Internal("CryptoPolicy: %d cells" % len(cases))
         sizes = [1, 32767, 32768, 32769, 100000]
         nconn = 300 if tier == "quick" else 5000
